@@ -841,7 +841,7 @@ def generate_random_object_cluster(n_objects, object_generator, max_cluster_tran
                                    max_cluster_rot=np.pi/8, *, rng=None):
     """ Creates a cluster of random objects """
     rng = np.random.default_rng(rng)
-    ref_obj = object_generator()
+    ref_obj = object_generator(rng=rng)
     cluster_objects = []
     for i in range(n_objects):
         r = random_rotation_translation_rotor(maximum_translation=max_cluster_trans,
